@@ -639,6 +639,10 @@ class ExeConfI(Interface):
              'predefined_symbols': Any_, 'exe_atc_and_skip_assertions': Any_}
 
 
+class PreSdsEnvironmentI(Interface):
+    attrs = {'symbols': Any_}
+
+
 def _mk_executor(interp, name):
     ex = object.__new__(pexe._PartialExecutor)
     ex._instruction_settings = SETTINGS.make(interp, name + '._instruction_settings')
@@ -649,6 +653,9 @@ def _mk_executor(interp, name):
     ex._PartialExecutor__sandbox_directory_structure = Any_.make(interp, name + '.sds')
     ex._PartialExecutor__post_sds_symbol_table = Any_.make(interp, name + '.post_sds_symbol_table')
     ex._phase_tmp_space_factory = Iface(TmpSpaceFactoryI).make(interp, name + '._phase_tmp_space_factory')
+    ex._action_to_check = Any_.make(interp, name + '._action_to_check')
+    ex._os_services = Any_.make(interp, name + '._os_services')
+    ex._instruction_environment_pre_sds = Iface(PreSdsEnvironmentI).make(interp, name + '.env_pre_sds')
     return ex
 
 
@@ -800,3 +807,147 @@ M.contract('exactly_lib.impls.actors.util.atc_proc_exe_settings:for_atc',
                     result.timeout_in_seconds == environment.proc_exe_settings.timeout_in_seconds
                     and result.environ is execution_input.environ},
            raises_only=())
+
+
+# --- both sets start as the environment Exactly was started with; they are independent copies
+
+from exactly_lib.execution.partial_execution.impl.act_helper import ActHelper
+from exactly_lib.execution import predefined_properties
+
+M.contract('exactly_lib.execution.partial_execution.impl.act_helper:ActHelper.__init__', trusted=True,
+           params=dict(self=Inst(ActHelper), actor_name=Any_, act_phase=Any_))
+M.trust('ActHelper.__init__ (source of the act phase: C01/C10) does not touch the settings')
+
+
+class ActorNameAndValueI(Interface):
+    attrs = {'name': Any_, 'value': Any_}
+
+
+_CONFIGURATION = Inst(pexe.Configuration,
+                      _tuple=[Iface(ExeConfI),
+                              Inst(ConfPhaseValues, _tuple=[Iface(ActorNameAndValueI), Any_]),
+                              # what full_execution.execute passes (check `setup-settings-handler`)
+                              Const(StandardSetupSettingsHandler.new_from_environ)])
+
+
+@M.check('setup-settings-handler')
+def _setup_settings_handler(ctx):
+    import ast, inspect
+    from exactly_lib.execution.full_execution import execution as full
+    src = inspect.getsource(full.execute)
+    calls = [n for n in ast.walk(ast.parse(src)) if isinstance(n, ast.Call)
+             and ast.unparse(n.func) == 'execution.execute']
+    ok = len(calls) == 1 and len(calls[0].args) == 5 and \
+        ast.unparse(calls[0].args[3]) == 'StandardSetupSettingsHandler.new_from_environ'
+    ctx.obligation('full execution makes the setup settings handler with StandardSetupSettingsHandler.new_from_environ',
+                   ok, 'enumeration')
+
+
+class TestCaseI(Interface):
+    attrs = {'act_phase': Any_}
+
+
+M.contract(P_EXE + ':_PartialExecutor.__init__',
+           params=dict(self=Inst(pexe._PartialExecutor), conf=_CONFIGURATION, test_case=Iface(TestCaseI)),
+           ensures={
+               'non-act set and act set start equal to the configured environment (None = inherit = default)':
+                   lambda self, conf:
+                   (self._instruction_settings.environ() is None and self._setup_settings_handler.builder.environ is None)
+                   if conf.exe_conf.environ is None else
+                   (self._instruction_settings.environ() == conf.exe_conf.environ
+                    and self._setup_settings_handler.builder.environ == conf.exe_conf.environ),
+               'they are independent copies': lambda self, conf:
+               conf.exe_conf.environ is None or (
+                       self._instruction_settings.environ() is not self._setup_settings_handler.builder.environ
+                       and self._instruction_settings.environ() is not conf.exe_conf.environ
+                       and self._setup_settings_handler.builder.environ is not conf.exe_conf.environ),
+               'timeout and default getter as configured': lambda self, conf:
+               self._instruction_settings.timeout_in_seconds() == conf.exe_conf.timeout_in_seconds
+               and self._instruction_settings.default_environ_getter is conf.exe_conf.default_environ_getter,
+           }, raises_only=())
+
+
+@M.check('default-environ')
+def _default_environ_check(ctx):
+    """The default environment is a new dict(os.environ) on every call."""
+    import ast, inspect
+    from exactly_lib.definitions import os_proc_env
+    src = inspect.getsource(predefined_properties.os_environ_getter)
+    body = ast.parse(src).body[0].body
+    ctx.obligation('os_environ_getter returns dict(os.environ)',
+                   len(body) == 1 and isinstance(body[0], ast.Return)
+                   and ast.unparse(body[0].value) == 'dict(os.environ)', 'enumeration')
+    ctx.obligation('the default getter of the program is os_environ_getter',
+                   os_proc_env.ENV_VARS_GETTER__DEFAULT is predefined_properties.os_environ_getter, 'enumeration')
+    a, b = predefined_properties.os_environ_getter(), predefined_properties.os_environ_getter()
+    ctx.obligation('two calls give equal, distinct dicts equal to os.environ',
+                   a == b == dict(os.environ) and a is not b, 'enumeration')
+
+
+# --- the act phase executor: built after setup-main; gets the act set, the current timeout and (C08) the
+# execution-time symbol table
+
+from exactly_lib.execution.partial_execution.impl.atc_execution import ActionToCheckExecutor
+
+M.contract(P_EXE + ':_PartialExecutor._construct_act_phase_executor', params=dict(self=EXECUTOR),
+           props=('C08', 'C11'),
+           ensures={
+               'the act set, as the setup phase left it': lambda self, result:
+               result.atc_input.environ is self._setup_settings_handler.builder.environ,
+               'the timeout and non-act set now in force': lambda self, result:
+               _is_current_view(result.environment_for_other_steps.proc_exe_settings, self._instruction_settings)
+               and _is_current_view(result.environment_for_validate_post_setup.proc_exe_settings,
+                                    self._instruction_settings),
+               'C08: the act phase executes with the execution-time symbol table, validates with the validated one':
+                   lambda self, result:
+                   result.environment_for_other_steps.symbols is self._PartialExecutor__post_sds_symbol_table
+                   and result.environment_for_validate_post_setup.symbols is self._instruction_environment_pre_sds.symbols,
+           }, raises_only=())
+
+
+# --- set up after validation: cwd := act dir; (C08) the execution-time table := a copy of the predefined symbols
+
+from contracts.C08_symbols import TABLE as SYMBOL_TABLE, view as table_view
+
+
+class SdsI(Interface):
+    attrs = {'act_dir': Iface(PrimitivePathI), 'internal_tmp_dir': Any_}
+
+
+def _construct_and_set_sds(interp, args, kwargs):
+    """_PartialExecutor._construct_and_set_sds: creates the sandbox directory structure (C04) and stores it"""
+    (self,) = args
+    object.__setattr__(self, '_PartialExecutor__sandbox_directory_structure', Iface(SdsI).make(interp, 'sds'))
+    interp.st.emit('sds-constructed')
+
+
+M.model(pexe._PartialExecutor.__dict__['_construct_and_set_sds'], _construct_and_set_sds)
+M.trust('_PartialExecutor._construct_and_set_sds creates the sandbox and stores it in the executor (C04); it does '
+        'not touch settings, symbols or the current directory')
+
+
+class ExeConfWithSymbolsI(ExeConfI):
+    attrs = {'predefined_symbols': SYMBOL_TABLE}
+
+
+def _mk_executor_before_sds(interp, name):
+    ex = _mk_executor(interp, name)
+    ex.exe_conf = Iface(ExeConfWithSymbolsI).make(interp, name + '.exe_conf')
+    ex.conf = Inst(pexe.Configuration, _tuple=[Const(ex.exe_conf), Any_, Any_]).make(interp, name + '.conf')
+    ex._PartialExecutor__sandbox_directory_structure = None
+    del ex._PartialExecutor__post_sds_symbol_table
+    return ex
+
+
+M.contract(P_EXE + ':_PartialExecutor._setup_post_sds_environment', params=dict(self=Custom(_mk_executor_before_sds)),
+           props=('C08', 'C11'),
+           ensures={
+               'C08: the execution-time table starts as a copy of the predefined symbols': lambda self:
+               table_view(self._PartialExecutor__post_sds_symbol_table) == table_view(self.exe_conf.predefined_symbols)
+               and self._PartialExecutor__post_sds_symbol_table is not self.exe_conf.predefined_symbols
+               and table_view(self._PartialExecutor__post_sds_symbol_table)
+               is not table_view(self.exe_conf.predefined_symbols),
+               'C11: the current directory is the act directory of the new sandbox': lambda self, trace, ghost:
+               [e[0] for e in trace if e[0] in ('sds-constructed', 'chdir')] == ['sds-constructed', 'chdir']
+               and ghost.get('cwd') == str(self._PartialExecutor__sandbox_directory_structure.act_dir),
+           }, may_raise=(OSError,), raises_only=())
